@@ -1,42 +1,47 @@
 /-
-Kernel-checked counter-witnesses: clauses of C10 that the current code (hence the model) falsifies
-for BACKWARD iterations (decreasing sample dates, which `AnalyticalPropagator.iter` supports by
-negating the step), and one observation about exact zeros.
+Kernel-checked concrete runs of the model for BACKWARD iterations (decreasing sample dates, which
+`AnalyticalPropagator.iter` supports by negating the step) and one observation about exact zeros.
+
+History: until /repo commits e2c987e (events of one step sorted in the direction of the iteration) and eddcf76
+(apsis / mask / light labels keep their physical meaning backward) this file held COUNTER-witnesses:
+`backward_not_chronological` (stream 1000, 300, 700, 0), `backward_apside_label` (a periapsis labelled "Apoapsis"
+when iterating backward) and `backward_light_label` (a shadow exit labelled "Umbra entry").  The code was fixed, the
+model follows it, the general statements are now theorems (`C10.stream_chronological_backward`,
+`C10.label_prev_compare`, `C10.label_light`), and the same inputs are kept here as positive regression witnesses.
 -/
 import BeyondVerif.Model.ListenKinds
 namespace BeyondVerif.C10W
 open BeyondVerif.Listen
 
-def lin (r : Int) : Lst := ⟨fun t => t - r, fun _ => true, fun _ _ => "x"⟩
+def lin (r : Int) : Lst := ⟨fun t => t - r, fun _ _ => true, fun _ _ => "x"⟩
 
-/-- `sorted(results, key=date)` is ascending whatever the direction of the iteration: with two listeners firing in
-the same backward step (sample 1000 then sample 0, crossings at 300 and 700) the stream is 1000, 300, 700, 0 —
-not monotone in the direction of the iteration. -/
-theorem backward_not_chronological :
-    (iter [lin 700, lin 300] [none, none] [1000, 0]).map Item.t = [1000, 300, 700, 0] := by decide +kernel
+/-- two listeners firing in the same backward step (sample 1000 then sample 0, crossings at 300 and 700): the stream
+runs 1000, 700, 300, 0 — ordered in the direction of the iteration (was 1000, 300, 700, 0 before e2c987e). -/
+theorem backward_chronological :
+    (iter [lin 700, lin 300] [none, none] [1000, 0]).map Item.t = [1000, 700, 300, 0] := by decide +kernel
 
-/-- the same two listeners in a forward iteration: chronological -/
+/-- the same two listeners in a forward iteration -/
 theorem forward_chronological :
     (iter [lin 700, lin 300] [none, none] [0, 1000]).map Item.t = [0, 300, 700, 1000] := by decide +kernel
 
 def chan (rdot : Int → Int) : Chan := ⟨fun _ => 0, fun _ => 0, rdot, fun _ => 0, 0⟩
 
-/-- `ApsideListener.info` compares with `listener.prev`, which in a backward iteration is the LATER state: a radial
-velocity that increases with time through zero at t = 500 (a periapsis) is labelled "Periapsis" when iterating
-forward and "Apoapsis" when iterating backward over the same instants. -/
-theorem backward_apside_label :
+/-- a radial velocity that increases with time through zero at t = 500 (a periapsis) is labelled "Periapsis" whether
+the iteration runs forward or backward over it (backward it was "Apoapsis" before eddcf76). -/
+theorem apside_label_both_directions :
     iter [mkLst .apside (chan (fun t => t - 500))] [none] [0, 1000] = [⟨0, none⟩, ⟨500, some (0, "Periapsis")⟩, ⟨1000, none⟩] ∧
-    iter [mkLst .apside (chan (fun t => t - 500))] [none] [1000, 0] = [⟨1000, none⟩, ⟨500, some (0, "Apoapsis")⟩, ⟨0, none⟩] := by
+    iter [mkLst .apside (chan (fun t => t - 500))] [none] [1000, 0] = [⟨1000, none⟩, ⟨500, some (0, "Periapsis")⟩, ⟨0, none⟩] := by
   constructor <;> decide +kernel
 
-/-- same for `LightListener` (value at the event state): leaving the shadow at t = 500 is "Umbra exit" forward and
-"Umbra entry" backward. -/
-theorem backward_light_label :
+/-- `LightListener`: the watched quantity t − 500 is negative (shadow) before 500 and positive after; iterating backward
+the event is labelled "Umbra exit", the physical meaning of the instant (it was "Umbra entry" before eddcf76). -/
+theorem light_label_backward :
     iter [mkLst (.light true) ⟨fun t => t - 500, fun _ => 0, fun _ => 0, fun _ => 0, 0⟩] [none] [1000, 0] =
-      [⟨1000, none⟩, ⟨500, some (0, "Umbra entry")⟩, ⟨0, none⟩] := by decide +kernel
+      [⟨1000, none⟩, ⟨500, some (0, "Umbra exit")⟩, ⟨0, none⟩] := by decide +kernel
 
-/-- observation (three-valued sign): a crossing that passes through an exact zero AT a sample date produces two events,
-one dated at that sample (it is the sample object itself, which is then yielded twice) and one 1 µs later. -/
+/-- observation (three-valued sign, unchanged by the fixes): a crossing that passes through an exact zero AT a sample date
+produces two events, one dated at that sample (it is the sample object itself, which is then yielded twice) and one
+1 µs later. -/
 theorem exact_zero_at_sample_two_events :
     iter [lin 10] [none] [0, 10, 20] =
       [⟨0, none⟩, ⟨10, some (0, "x")⟩, ⟨10, some (0, "x")⟩, ⟨11, some (0, "x")⟩, ⟨20, none⟩] := by decide +kernel
